@@ -23,6 +23,7 @@ EXPLANATION = (
     "(so a second export sees the same state: C10.EXPORT-RO with the effect summary of export).  C10.NONDET: no "
     "random/clock/environment/identity input on the export call graph (the one wall-clock read, date.today(), is "
     "recorded once, under C18 as K2)."
+    '  Also reported: a field bound to a module-level object itself and later mutated through the field; `othermodule.NAME = ...` at run time; on the export call graph any store or mutating call on an object reached from self.items / self.options; functions that run only at import time are part of module initialisation.'
 )
 ASSUMPTIONS = ["caller-supplied scale / option objects are the caller's to share"]
 
